@@ -10,7 +10,7 @@ Rules
   W1  SharedVariable / SharedOptionalVariable cannot be copied around their lock (compile-time witness)
 Decides the lock discipline (a necessary condition of the statement); linearizability of histories is NOT decided."""
 import re
-from ..elock import LockAnalysis, erase_scalars, overlap, common
+from ..elock import LockAnalysis, erase_scalars, overlap, common, disp, names
 from ..tree import short_fn
 from .. import ewit
 
@@ -107,7 +107,7 @@ def field_key(fx, cq, path):
     (a class of this repository with non-public fields): races are reported per guarded field, not per sub-field."""
     rec = fx.records.get(cq)
     out = []
-    for comp in path[1:]:
+    for comp in names(path)[1:]:
         out.append(comp)
         f = None
         r = rec
@@ -170,8 +170,8 @@ def run(fx, R, tier):
             for u in S.undecided:
                 R.undecided('L1', '%s::%s' % (erase_scalars(cq), name), u)
             for (m, loc, fnq, chain) in S.deadlocks:
-                R.violated('L4', '%s::%s:%s' % (erase_scalars(cq), name, '.'.join(m[1:])),
-                           'std::mutex %s re-acquired while already held (call chain %s): self-deadlock on every call' % ('.'.join(m), ' -> '.join(short_fn(c) for c in chain)),
+                R.violated('L4', '%s::%s:%s' % (erase_scalars(cq), name, disp(m[1:])),
+                           'std::mutex %s re-acquired while already held (call chain %s): self-deadlock on every call' % (disp(m), ' -> '.join(short_fn(c) for c in chain)),
                            loc, 'E-LOCK')
         if not sums:
             R.undecided('L1', erase_scalars(cq), 'no entry point with a body found for this class')
@@ -209,13 +209,13 @@ def run(fx, R, tier):
         for key, st in sorted(field_state.items()):
             if not st['bad']:
                 R.holds('L1', '%s:%s' % (cname, key), '%d conflicting access pair(s), all under %s' % (
-                    st['pairs'], sorted('.'.join(m) for m in (st['mutexes'] or []))), engine='E-LOCK')
+                    st['pairs'], sorted(disp(m) for m in (st['mutexes'] or []))), engine='E-LOCK')
             for entry, lst in sorted(st['bad'].items()):
                 x, ny, y = lst[0]
                 R.violated('L1', '%s::%s:%s' % (cname, entry, key),
                            'data race: %s of %s in %s (via %s) holds %s, while concurrent entry %s does a %s of %s holding %s' % (
-                               'write' if x.kind == 'W' else 'read', '.'.join(x.path), entry, short_fn(x.fn),
-                               _ml(x), ny, 'write' if y.kind == 'W' else 'read', '.'.join(y.path), _ml(y)),
+                               'write' if x.kind == 'W' else 'read', disp(x.path), entry, short_fn(x.fn),
+                               _ml(x), ny, 'write' if y.kind == 'W' else 'read', disp(y.path), _ml(y)),
                            x.loc, 'E-LOCK')
         # ---- L2 ------------------------------------------------------
         wpaths = []
@@ -239,7 +239,7 @@ def run(fx, R, tier):
                 p, nb, loc = esc[0]
                 R.violated('L2', '%s::%s:%s' % (cname, na, field_key(fx, cq, p)),
                            'entry %s returns a %s into %s, which entry %s writes: the caller reads it after the lock is released' % (
-                               na, 'reference' if fa['ret'].get('ref') else 'pointer', '.'.join(p), nb), loc, 'E-LOCK')
+                               na, 'reference' if fa['ret'].get('ref') else 'pointer', disp(p), nb), loc, 'E-LOCK')
             else:
                 R.holds('L2', '%s::%s' % (cname, na), 'returned reference does not denote storage written by a concurrent entry', engine='E-LOCK')
         for (na, ra, SA, fa) in sums:
@@ -276,7 +276,7 @@ def run(fx, R, tier):
                 m, a1, a2, ob = bad
                 R.violated('L3', '%s::%s:%s' % (cname, na, field_key(fx, cq, common(a1.path, a2.path))),
                            'entry %s touches %s under two separate acquisitions of %s (%s and %s); concurrent entry %s can observe the intermediate state' % (
-                               na, '.'.join(common(a1.path, a2.path)), '.'.join(m), a1.loc, a2.loc, ob), a2.loc, 'E-LOCK')
+                               na, disp(common(a1.path, a2.path)), disp(m), a1.loc, a2.loc, ob), a2.loc, 'E-LOCK')
             elif by_acq:
                 R.holds('L3', '%s::%s' % (cname, na), 'guarded accesses of each mutex lie in one critical section', engine='E-LOCK')
     R.note('entry_points', n_entries)
@@ -290,7 +290,7 @@ def run(fx, R, tier):
 
 
 def _ml(a):
-    ms = sorted('.'.join(m) for m in a.mutexes())
+    ms = sorted(disp(m) for m in a.mutexes())
     return 'no lock' if not ms else 'lock(s) ' + ','.join(ms)
 
 
